@@ -283,7 +283,7 @@ func filterIgnored(
 				// ignore would only fire when not analyzing
 				// tests. To avoid spurious "useless ignore"
 				// warnings, just never flag U1000.
-				return false
+				continue
 			}
 
 			// Even though the runner always runs all analyzers, we
